@@ -1,11 +1,58 @@
-// Pure-Go signature stub replacing the cgo file of pkg/erasure_coding — type checking only; EXTERNAL to govc.
+// Offline pure-Go stub for pkg/erasure_coding (used only via go test -overlay).
+// NOT real Reed-Solomon: deterministic placeholder so dependants compile and run.
 package erasurecoding
+
+import (
+	"errors"
+	"fmt"
+)
+
+func EncodeDataShards(data []byte, dataShard, parityShard int) ([][]byte, error) {
+	flat, err := EncodeData(data, dataShard, parityShard)
+	if err != nil {
+		return nil, err
+	}
+	numShards := dataShard + parityShard
+	if len(flat)%numShards != 0 {
+		return nil, fmt.Errorf("unexpected output size %d is not divisible by %d shards", len(flat), numShards)
+	}
+	shardSize := len(flat) / numShards
+	shards := make([][]byte, numShards)
+	for i := 0; i < numShards; i++ {
+		shards[i] = append([]byte(nil), flat[i*shardSize:(i+1)*shardSize]...)
+	}
+	return shards, nil
+}
+
+func EncodeData(data []byte, dataShards, parityShards int) ([]byte, error) {
+	if len(data) == 0 {
+		return nil, errors.New("input data is empty")
+	}
+	shardSize := (len(data) + dataShards - 1) / dataShards
+	if shardSize%2 == 1 {
+		shardSize++
+	}
+	n := dataShards + parityShards
+	out := make([]byte, n*shardSize)
+	copy(out, data)
+	// placeholder "parity": xor-fold of data shards, salted by shard index
+	for p := dataShards; p < n; p++ {
+		for k := 0; k < shardSize; k++ {
+			var b byte
+			for d := 0; d < dataShards; d++ {
+				b ^= out[d*shardSize+k] + byte(d*p)
+			}
+			out[p*shardSize+k] = b
+		}
+	}
+	return out, nil
+}
 
 type Shard struct {
 	Index int
 	Data  [2]byte
 }
 
-func EncodeDataShards(data []byte, dataShard, parityShard int) ([][]byte, error) { panic("govc stub: external function not available offline") }
-func EncodeData(data []byte, dataShards, parityShards int) ([]byte, error) { panic("govc stub: external function not available offline") }
-func DecodeShards(flatten []byte, indices []int, dataShards, parityShards, shardSize int) ([]byte, error) { panic("govc stub: external function not available offline") }
+func DecodeShards(flatten []byte, indices []int, dataShards, parityShards, shardSize int) ([]byte, error) {
+	return nil, errors.New("erasure coding stub: decode not available offline")
+}
